@@ -87,3 +87,15 @@ package hash
 //@   modifies deref(s)
 //@   ensures  old(len(deref(s))) == 0 ==> result == nil && deref(s) == old(deref(s))
 //@   ensures  old(len(deref(s))) > 0 ==> result != nil && deref(result) == old(deref(s)[len(deref(s)) - 1]) && len(deref(s)) == old(len(deref(s))) - 1 && arrof(deref(s)) == old(arrof(deref(s))) && offof(deref(s)) == old(offof(deref(s)))
+//@
+//@ // the order used by ByEpochAndLamport is the byte-wise order of the 32-byte IDs (C32: with the epoch in bytes 0..3 and
+//@ // the Lamport time in bytes 4..7, big-endian, this is the order by epoch, then Lamport time, then the rest)
+//@ func (OrderedEvents).Less
+//@   requires 0 <= i && i < len(hh) && 0 <= j && j < len(hh)
+//@   ensures  result == idless(hh[i], hh[j])
+//@ func (OrderedEvents).Len
+//@   ensures  result == len(hh)
+//@ func (OrderedEvents).Swap
+//@   requires 0 <= i && i < len(hh) && 0 <= j && j < len(hh)
+//@   modifies hh[i], hh[j]
+//@   ensures  hh[i] == old(hh[j]) && hh[j] == old(hh[i])
